@@ -5,40 +5,82 @@
 #include <librfn/mlog.h>
 
 uint32_t time_now(void) { return 0; }
-#define NFMT 1024
-static char fmts[NFMT][360];
+#define NFMT 2048
+#define NSTD 1024        /* formats 0..1023: "f<i> %lu %lu %lu" (every 64th padded to more than 256 characters) */
+#define NLEN 701         /* formats 1024..1724: "g%lu " + k filler characters, k = 0..700: a line of every length */
+static char fmts[NFMT][760];
 #define PADLEN 300
 static unsigned long nextid;
+static const char *const star[4] = { "s%lu [%*lu]\n", "s%lu [%-*lu]\n", "s%lu [%.*s]\n", "s%lu %lu%%%lu\n" };  /* '*' takes an argument of its own */
 
 static void init_fmts(void)
 {
 	for (int i = 0; i < NFMT; i++) {
-		int n = snprintf(fmts[i], sizeof(fmts[i]), "f%d %%lu %%lu %%lu", i);
-		if (i % 64 == 7) { memset(fmts[i] + n, 'x', PADLEN); n += PADLEN; }      /* a line longer than 256 characters */
+		int n;
+		if (i < NSTD) {
+			n = snprintf(fmts[i], sizeof(fmts[i]), "f%d %%lu %%lu %%lu", i);
+			if (i % 64 == 7) { memset(fmts[i] + n, 'x', PADLEN); n += PADLEN; }      /* a line longer than 256 characters */
+		} else if (i < NSTD + NLEN) {
+			n = snprintf(fmts[i], sizeof(fmts[i]), "g%%lu ");
+			memset(fmts[i] + n, 'y', i - NSTD); n += i - NSTD;
+		} else {
+			strcpy(fmts[i], star[i % 4]);
+			continue;
+		}
 		fmts[i][n] = '\n'; fmts[i][n + 1] = 0;
 	}
 }
+static void args_of(unsigned long id, uintptr_t a[3])
+{
+	unsigned i = id % NFMT;
+	a[0] = id;
+	if (i < NSTD) { a[1] = id ^ 0x5555ul; a[2] = id * 3; }
+	else if (i < NSTD + NLEN) { a[1] = 1; a[2] = 2; }
+	else switch (i % 4) {
+	case 0: case 1: a[1] = 3 + id % 9; a[2] = id * 3; break;
+	case 2: a[1] = id % 11; a[2] = (uintptr_t)"abcdefghij"; break;
+	default: a[1] = id ^ 7; a[2] = id + 1; break;
+	}
+}
+/* the message id a line carries, if the line is exactly what that message's format and arguments print (-2 otherwise) */
 static long parse(const char *s)
 {
+	static char want[1400];
+	unsigned long id;
 	int fi;
-	unsigned long a, b, c;
+	uintptr_t a[3];
 	if (!s) return -1;
-	int used = 0;
-	if (sscanf(s, "f%d %lu %lu %lu%n", &fi, &a, &b, &c, &used) != 4) return -2;
-	if (fi != (int)(a % NFMT) || b != (a ^ 0x5555ul) || c != a * 3) return -2;
-	/* the complete text must be there: padding (if this format has any) and nothing else */
-	size_t want = (fi % 64 == 7) ? PADLEN : 0, have = 0;
-	while (s[used + have] == 'x') have++;
-	if (have != want || (s[used + have] != 0 && s[used + have] != '\n')) return -2;
-	return (long)a;
+	if (s[0] == 'f') { if (sscanf(s, "f%d %lu", &fi, &id) != 2) return -2; }
+	else if (s[0] == 'g' || s[0] == 's') { if (sscanf(s + 1, "%lu", &id) != 1) return -2; }
+	else return -2;
+	args_of(id, a);
+	snprintf(want, sizeof(want), fmts[id % NFMT], a[0], a[1], a[2]);
+	size_t n = strlen(want), m = strlen(s);
+	if (m == n - 1 && want[n - 1] == '\n') n--;          /* a dump line is handed over without its newline */
+	if (m != n || memcmp(s, want, n) != 0) return -2;
+	return (long)id;
 }
 static void do_log(int nice)
 {
 	unsigned long id = nextid;
+	uintptr_t a[3];
 	nextid = (nextid + 1) % (1ul << 30);
-	if (nice) mlog_nice(fmts[id % NFMT], id, id ^ 0x5555ul, id * 3);
-	else mlog(fmts[id % NFMT], id, id ^ 0x5555ul, id * 3);
+	args_of(id, a);
+	if (nice) mlog_nice(fmts[id % NFMT], a[0], a[1], a[2]);
+	else mlog(fmts[id % NFMT], a[0], a[1], a[2]);
 	printf("{\"e\":\"%s\",\"id\":%lu}\n", nice ? "Nice" : "Log", id);
+}
+/* n messages in a row with nothing read in between: one event */
+static void do_burst(unsigned long n)
+{
+	for (unsigned long i = 0; i < n; i++) {
+		unsigned long id = nextid;
+		uintptr_t a[3];
+		nextid = (nextid + 1) % (1ul << 30);
+		args_of(id, a);
+		mlog(fmts[id % NFMT], a[0], a[1], a[2]);
+	}
+	printf("{\"e\":\"Burst\",\"n\":%lu}\n", n);
 }
 static void do_read(int k)
 {
@@ -62,10 +104,11 @@ static void do_dump(void)
 	fclose(f);
 	printf("{\"e\":\"Dump\",\"r\":[");
 	int first = 1;
-	for (char *p = buf; p && *p;) {
-		char *nl = strchr(p, '\n');
+	for (char *p = buf; p && p < buf + len;) {
+		char *nl = memchr(p, '\n', buf + len - p);
 		if (nl) *nl = 0;
-		printf("%s%ld", first ? "" : ",", parse(p));
+		/* a line that is not newline-terminated, or that contains a NUL byte, is not a line of the log */
+		printf("%s%ld", first ? "" : ",", (nl && strlen(p) == (size_t)(nl - p)) ? parse(p) : -2L);
 		first = 0;
 		if (!nl) break;
 		p = nl + 1;
@@ -120,6 +163,30 @@ int main(void)
 				if (full || (i > 80 && i < 100) || (i > 336 && i < 356) || i % 50 == 0) do_readall(); else do_readsome();
 				if (i % 101 == 0) do_dump();
 			}
+		}
+		else if (drv_is(&c, "Kinds")) {     /* every format class: every line length 0..700, '*' widths and precisions, %% */
+			do_clear();
+			nextid = NSTD - 40;
+			for (int i = 0; i < NFMT + 300; i++) {
+				do_log(0);
+				do_readsome();
+				if (i % 50 == 0 || i % 256 == 255) do_dump();
+			}
+		}
+		else if (drv_is(&c, "Burst")) do_burst((unsigned long)drv_arg(&c, 0));
+		else if (drv_is(&c, "Unread")) {
+			/* more than 2^31 messages with nobody reading in between (mode 0: from just below the fold point, placed
+			 * there by the hook; mode 1: 2^32 + 5 messages from a clear, no hook), then everything is read */
+			do_clear();
+			if (drv_arg(&c, 0) == 0) {
+				do_setcount(0x7ffffe00u);
+				for (int i = 0; i < 256; i++) do_log(0);
+				do_readsome();
+				do_burst(1ul << 30); do_burst(1ul << 30); do_burst(261);   /* a 32-bit counter that was never folded would now stand at 5 */
+			} else {
+				do_burst(1ul << 30); do_burst(1ul << 30); do_burst(1ul << 30); do_burst(1ul << 30); do_burst(5);
+			}
+			do_readall(); do_dump(); do_log(1); do_log(1); do_readsome(); do_log(0); do_readall();
 		}
 		else if (drv_is(&c, "NiceFar")) {
 			/* the counter is set, 256 messages refill the window, then mlog_nice is tried: bases whose low 8 / 16 / 24 bits
